@@ -6,7 +6,7 @@ what `Check @name` prints under those imports, so the property file shows the fu
 import re, subprocess, sys
 prop, prefix, imports, names = sys.argv[1], sys.argv[2], sys.argv[3], sys.argv[4:]
 existing = open(f"/verif/coq/{prop}").read()
-head = "\n".join(l for l in existing.splitlines() if re.match(r"^(From |Require |Import |Local Open Scope|Open Scope)", l))
+head = "\n".join(re.findall(r"(?ms)^(?:From|Require|Import|Local Open Scope|Open Scope)\b.*?\.(?=\s)", existing))
 src = head + "\n" + imports + "\nSet Printing Width 100.\n" + "".join(f"Check @{n}.\n" for n in names)
 open("/tmp/restate_chk.v", "w").write(src)
 out = subprocess.run(["coqtop", "-Q", ".", "SR", "-batch", "-l", "/tmp/restate_chk.v"], capture_output=True, text=True, cwd="/verif/coq")
